@@ -187,6 +187,8 @@ def targeted(res, ctx, rng):
 
 def run(ctx):
     res = core.Result()
+    import random
+    H.set_clock(random.Random(ctx.seed * 7919 + ctx.shard))      # coarse time base: records may share a tick
     rng = ctx.rng
     with monitors.HandlerCoverage() as cov:
         per_decoder(res, ctx, rng)
